@@ -77,6 +77,11 @@ impl SimpleCycle {
         Err(())
     }
 
+    #[cfg(meshless_voro_verif)]
+    pub fn verif_state(&self) -> (Vec<usize>, usize, usize) {
+        (self.ptrs.clone(), self.start, self.len)
+    }
+
     pub fn iter(&self) -> SimpleCycle2Iterator {
         SimpleCycle2Iterator {
             simple_cycle: self,
